@@ -26,7 +26,70 @@ def boot():
     seams.AUDIT.install(PKGDIR)
     from smartquery.sq_parser import SqParser
     PRISTINE = SqParser()
+    _load_twin()
+    from . import modstate
+    global SNAP_A, SNAP_B
+    SNAP_A = modstate.snapshot([m for n, m in sorted(sys.modules.items()) if n == 'smartquery' or n.startswith('smartquery.')])
+    SNAP_B = modstate.snapshot([m for n, m in sorted(TWIN_MODULES.items())])
     _booted = True
+
+
+SNAP_A = SNAP_B = None
+TWIN_MODULES = {}
+TWIN = None             # namespace of the twin universe: .SqParser, .PRISTINE
+
+
+def _load_twin():
+    """Import the package a second time as an independent module universe (own module globals, caches, classes).
+    It is used only for pristine / uncached twin oracles and is reset before every twin call, so that it has no
+    history at all - not even process-wide memo tables that a deep copy of the parser cannot reach."""
+    global TWIN
+    saved = {n: m for n, m in sys.modules.items() if n == 'smartquery' or n.startswith('smartquery.')}
+    for n in saved:
+        del sys.modules[n]
+    try:
+        import importlib
+        pkg = importlib.import_module('smartquery')
+        sq = importlib.import_module('smartquery.sq_parser')
+        for n, m in list(sys.modules.items()):
+            if n == 'smartquery' or n.startswith('smartquery.'):
+                TWIN_MODULES[n] = m
+    finally:
+        for n in list(sys.modules):
+            if n == 'smartquery' or n.startswith('smartquery.'):
+                del sys.modules[n]
+        sys.modules.update(saved)
+
+    class _T:
+        pass
+    TWIN = _T()
+    TWIN.SqParser = sq.SqParser
+    TWIN.modules = TWIN_MODULES
+    TWIN.PRISTINE = sq.SqParser()
+    TWIN.ParserError = TWIN_MODULES['smartquery.exceptions'].ParserError
+
+
+def reset_run_state():
+    """Called before every run (and replay): no process-global state of the package survives from earlier runs."""
+    from . import modstate
+    modstate.reset(SNAP_A)
+    modstate.reset(SNAP_B)
+
+
+def twin_parser(cache=None):
+    """Pristine parser of the twin universe, with the twin's module state reset (no history of any kind)."""
+    import copy
+    from . import modstate
+    modstate.reset(SNAP_B)
+    memo = {}
+    y = getattr(TWIN.PRISTINE, 'yacc', None)
+    for attr in ('productions', 'action', 'goto'):
+        t = getattr(y, attr, None)
+        if t is not None:
+            memo[id(t)] = t
+    p = copy.deepcopy(TWIN.PRISTINE, memo)
+    p.parse_cache = cache
+    return p
 
 
 def fresh_parser(cache=None):
